@@ -37,7 +37,7 @@ ASSUMPTIONS = [
     "mako-render passes every --var as a string: only string-context programs take that path",
     "programs whose reference output is unknown are compared differentially only",
 ]
-BOUNDS = {"quick": {"seeds": [0, 1, 2, 3], "per_corpus_limit": 120}, "thorough": {"seeds": [0, 1, 2, 3, 4, 5, 6, 7], "per_corpus_limit": 1500}}
+BOUNDS = {"quick": {"module_state": "a template mutating its <%! %> state: 8 x 8 ordered pairs of construction routes in one process, each Template object rendered 2-3 times", "seeds": [0, 1, 2, 3], "per_corpus_limit": 120}, "thorough": {"seeds": [0, 1, 2, 3, 4, 5, 6, 7], "per_corpus_limit": 1500}}
 READY = True
 
 E = "\u00e9\u4e2d\U0001d11e"
